@@ -375,3 +375,17 @@ def c14(r):
               env={'TSAN_OPTIONS': 'halt_on_error=0 exitcode=0 log_path=' + log, 'VDRIVE_TSAN_LOG': log})
     r.exhaustive = True
     r.extra['bounds'] = 'clone independence: all valid sequences of <= %d actions over 3 contexts (run 5 mutating programs in any context, purge/free the original, free a clone), dumps of every live context after each; threads: 3 programs x {2,4,8} threads x {1,25} repetitions under ThreadSanitizer' % h
+
+
+@prop('C18')
+def c18(r):
+    r.assumptions += ['utf8: at(i)/insert use the module\'s own integer form of a character (its UTF-8 bytes packed big-endian); ill-formed texts: totality and memory safety only',
+                      'csv: the round trip is evaluated by the script (bytewise string equality), line-by-line feeding keeps the line break on each line (the module\'s convention)',
+                      'file: mode w+ / wb+, every operation preceded by seekcur(0) as C streams require between reads and writes; plplot is not built',
+                      'sqlite3: independent reader = the SQLite C library opened read-only by the harness']
+    r.mc('MC_Utf8', 'MC_Utf8.cfg', 'the independent UTF-8 decoder recovers the characters of every well-formed text of <= 3 characters and rejects ill-formed ones')
+    r.mc('ModCsv', 'MC_Csv.cfg', 'Deser(Ser(row)) = row and line-by-line feeding, for all rows of <= 2 fields of <= 2 symbols over {separator, quote, LF, CR, x, blank}')
+    scs = r.gen('Gen_C18', 'Gen_C18.cfg', timeout=3000)
+    r.exhaustive = True
+    r.extra['bounds'] = 'utf8: all texts of <= 3 characters out of 5 (1..4 bytes) x positions {0,1,n-1,n,n+1} x counts {0,1,2,5} + 85 ill-formed texts; csv: 6738 rows x 2 formats; file: all sequences of <= 3 of 15 operations x 2 modes; sqlite3: 14x14 value pairs in 5-column rows'
+    r.conform(scs, workers=16)
